@@ -14,7 +14,16 @@ RULE = ("wildcmp: every (pattern, string) pair with patterns over {a,b,*,?} "
         "negative strides run one case per forked child under an alarm; "
         "print->parse round trip; malformed inputs must be rejected; forms "
         "with an empty field/block (1::5, '1,,3', ...) are observation "
-        "counters only. IndexParser: vector->string->vector and "
+        "counters only. Adjacent-block family: 2..3 blocks with |stride| "
+        "2..9 (both signs) whose written end is ON or OFF the stride lattice, "
+        "each following block starting exactly one stride after the written "
+        "end (enumerated for strides -5..6 and random), through Parse, "
+        "through Add, Parse then Add, and print->Parse; must enumerate the "
+        "concatenation. Reuse family: one RangeParser object iterated twice, "
+        "parsed into twice (append or replace both accepted, counted), "
+        "Add() after Parse, print->Parse of the result; one IndexParser "
+        "object called repeatedly against fresh objects. "
+        "IndexParser: vector->string->vector and "
         "string->vector against direct enumeration. BeadList::Generate: "
         "random topologies, type and name: patterns against the reference "
         "matcher. Non-trivial: pattern with a wildcard; accepted range "
@@ -55,6 +64,9 @@ def run(chk):
         "forms in which the tokenizer drops an empty field or block are not "
         "judged (DESIGN §7)",
         "numbers outside the int range are observation counters only",
+        "a second Parse on the same RangeParser may append (what the code "
+        "does) or replace; what a Parse that throws leaves behind is an "
+        "observation counter",
         "index lists: non-negative and negative integers, reversed range "
         "tokens (5:3) are observation counters only"]
 
